@@ -230,3 +230,28 @@ def _(v):
     other.prod["C"] = other.prod["C"] + 1
     v.prove("different_coefficient_not_equal", not v.call(rxn.__eq__, other))
     v.prove("set_means_unit_coefficients", Reaction._init_stoich({"A", "B"}) == {"A": 1, "B": 1})
+
+
+@harness("C12", "print_structure.decimal_coefficients", functions=[ST + ":StrPrinter._Reaction_parts"], kind="shape-bounded", samples=0)
+def _(v):
+    """coefficient text is omitted iff the coefficient equals 1 - also for decimal coefficients below 1"""
+    import z3
+    from chempy.chemistry import Reaction
+    from chempy.printing.string import StrPrinter
+    a = v.real("a", lo=0.01, hi=5)
+    v.assume(SP.neg(a == 1))
+    rxn = Reaction({"H2O2": 1}, {"O2": a, "H2O": 1}, None, checks=())
+    parts = v.call(StrPrinter()._Reaction_parts, rxn)
+    S = z3.Function("real2str", z3.RealSort(), z3.StringSort())
+    v.prove("fractional_coefficient_is_printed", parts[3] == Sym(z3.Concat(z3.StringVal("H2O + "), S(a.e), z3.StringVal(" O2"))))
+
+
+@harness("C12", "print_structure.half_round_trip", functions=[ST + ":StrPrinter._Reaction_parts", PA + ":_parse_multiplicity"], kind="data")
+def _(v):
+    from chempy.chemistry import Reaction
+    ok = []
+    for c in (0.5, 0.25, 1.5, 2.5, 0.1):
+        r = Reaction({"H2O2": 1}, {"O2": c, "H2O": 1}, checks=())
+        back = Reaction.from_string(str(r), checks=())
+        ok.append(back.prod == r.prod and back.reac == r.reac)
+    v.prove("decimal_coefficients_round_trip", all(ok), str(ok))
